@@ -355,7 +355,7 @@ func (st *SortTable) Zero(s string) Term {
 func (st *SortTable) Preamble(folds []*FoldDecl) string {
 	var b strings.Builder
 	b.WriteString("(declare-sort Str 0)\n(declare-sort Func 0)\n(declare-const func_nil Func)\n(declare-const str_empty Str)\n")
-	b.WriteString("(declare-fun str_cat (Str Str) Str)\n(declare-fun str_len (Str) Int)\n(assert (forall ((s Str)) (! (>= (str_len s) 0) :pattern ((str_len s)))))\n(assert (= (str_len str_empty) 0))\n")
+	b.WriteString("(declare-fun str_cat (Str Str) Str)\n(declare-fun str_len (Str) Int)\n(assert (forall ((s Str)) (! (>= (str_len s) 0) :pattern ((str_len s)))))\n(assert (= (str_len str_empty) 0))\n(assert (forall ((a Str) (b Str)) (! (= (str_len (str_cat a b)) (+ (str_len a) (str_len b))) :pattern ((str_cat a b)))))\n")
 	// the sort table may grow while we print (zero values), so iterate to a fixpoint first
 	for {
 		n := len(st.structOrder) + len(st.seqOrder) + len(st.anyOrder) + len(st.opaque)
@@ -436,6 +436,7 @@ func seqAxioms(S, E, zero string) string {
 (assert (forall ((s $S) (e $E)) (! (= (sq_len_$S (sq_snoc_$S s e)) (+ (sq_len_$S s) 1)) :pattern ((sq_snoc_$S s e)))))
 (assert (forall ((s $S) (e $E)) (! (= (sq_at_$S (sq_snoc_$S s e) (sq_len_$S s)) e) :pattern ((sq_snoc_$S s e)))))
 (assert (forall ((s $S) (e $E) (i Int)) (! (=> (and (<= 0 i) (< i (sq_len_$S s))) (= (sq_at_$S (sq_snoc_$S s e) i) (sq_at_$S s i))) :pattern ((sq_at_$S (sq_snoc_$S s e) i)))))
+(assert (forall ((s $S) (e $E) (i Int)) (! (=> (and (<= 0 i) (< i (sq_len_$S s))) (= (sq_at_$S (sq_snoc_$S s e) i) (sq_at_$S s i))) :pattern ((sq_at_$S s i) (sq_snoc_$S s e)))))
 (assert (forall ((s $S) (t $S)) (! (= (sq_len_$S (sq_concat_$S s t)) (+ (sq_len_$S s) (sq_len_$S t))) :pattern ((sq_concat_$S s t)))))
 (assert (forall ((s $S) (t $S) (i Int)) (! (= (sq_at_$S (sq_concat_$S s t) i) (ite (< i (sq_len_$S s)) (sq_at_$S s i) (sq_at_$S t (- i (sq_len_$S s))))) :pattern ((sq_at_$S (sq_concat_$S s t) i)))))
 (assert (forall ((s $S)) (! (= (sq_concat_$S s sq_empty_$S) s) :pattern ((sq_concat_$S s sq_empty_$S)))))
